@@ -13,7 +13,7 @@ HEADER = """(* C11 -- constants REGENERATED on every run by harness/props/c11_tr
    esutil/cosmology/cosmolib.h, cosmolib.c and cosmology.py (fail-closed regex / ast walk).
    Decimal literals appear twice: as the exact rational they denote (R) and as the binary64
    value the compiler / CPython rounds them to (PrimFloat hex literal). *)
-From Coq Require Import Reals ZArith PrimFloat.
+From Coq Require Import Reals ZArith List PrimFloat.
 """
 
 
@@ -132,6 +132,7 @@ def translate(impl_root):
     out.append(_copy_and_reduce(cls[0]))
     out.append(_dispatch(cls[0]))
     out.append(_c_wrappers(open(os.path.join(d, "cosmolib_pywrap.c")).read()))
+    out.append(_c_scalar_functions(c, h))
     return HEADER + "\n".join(out) + "\n"
 
 
@@ -572,6 +573,373 @@ def _c_wrappers(c):
         vector(meth + "_vec", meth, 1)
     scalar("V", "V", 2)
     scalar("ez_inverse_integral", "ez_inverse_integral", 2)
+    return "\n".join(lines)
+
+
+# ---------------------------------------------------------------------------------------------
+# cosmolib.c: the scalar functions, translated statement by statement into Gallina over binary64 (PrimFloat).
+# Subset: double declarations (with initialisers), `x = e;`, `x op= e;`, `if (cond) {..} [else {..}]` (a branch that is a
+# single `return e;` becomes an early exit), one `for (i=0; i<N; i++) {..}` over the struct's tables, `return e;`.
+# Expressions: + - * / unary minus, parentheses, double literals, locals, parameters, c->field, c->table[i], M_PI,
+# FOUR_PI_G_OVER_C_SQUARED, sqrt(e), sinh(e), sin(e) and calls f(c, e, ..) of the other cosmolib functions, which become
+# function PARAMETERS of the translated definition (the tie lemma instantiates them with the model's functions).
+# ---------------------------------------------------------------------------------------------
+_TOK = re.compile(r"\s*(?:(\d+\.?\d*(?:[eE][-+]?\d+)?|\.\d+(?:[eE][-+]?\d+)?)|([A-Za-z_]\w*)|(->|<=|>=|==|!=|\+=|-=|\*=|/=|\+\+|[-+*/()<>=!;,{}\[\]]))")
+_FIELDS = {"DH": "DH", "omega_m": "om", "omega_l": "ol", "omega_k": "ok", "tcfac": "tcfac"}
+_TABLES = {"x": ("NPTS", "xi"), "w": ("NPTS", "wi"), "vx": ("VNPTS", "xi"), "vw": ("VNPTS", "wi")}
+_CALLS = {"ez_inverse": ("fez", 1), "ez_inverse_integral": ("fezint", 2), "Dc": ("fDc", 2), "Dm": ("fDm", 2), "Da": ("fDa", 2),
+          "Dl": ("fDl", 2), "dV": ("fdV", 1)}
+_LIBM = {"sinh": "fsinh", "sin": "fsin"}
+
+
+def _ctokens(text):
+    out, pos = [], 0
+    text = _strip_c_comments(text)
+    while pos < len(text):
+        if text[pos:].strip() == "":
+            break
+        m = _TOK.match(text, pos)
+        if not m:
+            raise TranslateError("cosmolib.c: cannot tokenise %r" % text[pos:pos + 30])
+        out.append(("num", m.group(1)) if m.group(1) else (("id", m.group(2)) if m.group(2) else ("op", m.group(3))))
+        pos = m.end()
+    return out
+
+
+class _CP:
+    """recursive-descent parser producing Gallina text directly"""
+
+    def __init__(self, toks, what, params):
+        self.t, self.i, self.what, self.params = toks, 0, what, set(params)
+        self.locals, self.used_funs, self.used_fields, self.flat_used, self.tables = set(), [], [], False, set()
+
+    def peek(self, k=0):
+        return self.t[self.i + k] if self.i + k < len(self.t) else ("eof", "")
+
+    def eat(self, kind=None, val=None):
+        tk = self.peek()
+        if (kind and tk[0] != kind) or (val is not None and tk[1] != val):
+            raise TranslateError("cosmolib.c %s: expected %s %r, found %r" % (self.what, kind, val, tk))
+        self.i += 1
+        return tk
+
+    def fail(self, msg):
+        raise TranslateError("cosmolib.c %s: %s (at %r)" % (self.what, msg, self.t[self.i:self.i + 6]))
+
+    # ---- expressions
+    def expr(self):
+        e = self.term()
+        while self.peek() in (("op", "+"), ("op", "-")):
+            op = self.eat()[1]
+            e = "(%s %s %s)" % (e, op, self.term())
+        return e
+
+    def term(self):
+        e = self.unary()
+        while self.peek() in (("op", "*"), ("op", "/")):
+            op = self.eat()[1]
+            e = "(%s %s %s)" % (e, op, self.unary())
+        return e
+
+    def unary(self):
+        if self.peek() == ("op", "-"):
+            self.eat()
+            return "(- %s)" % self.unary()
+        return self.primary()
+
+    def field(self):
+        """after `c ->`"""
+        f = self.eat("id")[1]
+        if self.peek() == ("op", "["):
+            self.eat()
+            ix = self.eat("id")[1]
+            self.eat("op", "]")
+            if f not in _TABLES or ix != "i":
+                self.fail("table access c->%s[%s]" % (f, ix))
+            self.tables.add(f)
+            return _TABLES[f][1]
+        if f == "flat":
+            self.flat_used = True
+            return "flat"
+        if f not in _FIELDS:
+            self.fail("field c->%s" % f)
+        if _FIELDS[f] not in self.used_fields:
+            self.used_fields.append(_FIELDS[f])
+        return _FIELDS[f]
+
+    def primary(self):
+        k, v = self.peek()
+        if k == "num":
+            self.eat()
+            _fr, fl = _dec(v, self.what)
+            return "(%s)" % float(fl).hex()
+        if k == "op" and v == "(":
+            self.eat()
+            e = self.expr()
+            self.eat("op", ")")
+            return e
+        if k == "id":
+            self.eat()
+            if v == "c" and self.peek() == ("op", "->"):
+                self.eat()
+                return self.field()
+            if self.peek() == ("op", "("):
+                self.eat()
+                args = []
+                while self.peek() != ("op", ")"):
+                    if self.peek() == ("id", "c") and self.peek(1) in (("op", ","), ("op", ")")):
+                        self.eat()
+                        args.append("c")
+                    else:
+                        args.append(self.expr())
+                    if self.peek() == ("op", ","):
+                        self.eat()
+                self.eat("op", ")")
+                if v == "sqrt" and len(args) == 1:
+                    return "(PrimFloat.sqrt %s)" % args[0]
+                if v in _LIBM and len(args) == 1:
+                    if _LIBM[v] not in self.used_funs:
+                        self.used_funs.append(_LIBM[v])
+                    return "(%s %s)" % (_LIBM[v], args[0])
+                if v in _CALLS and args and args[0] == "c" and len(args) - 1 == _CALLS[v][1]:
+                    if _CALLS[v][0] not in self.used_funs:
+                        self.used_funs.append(_CALLS[v][0])
+                    return "(%s %s)" % (_CALLS[v][0], " ".join(args[1:]))
+                self.fail("call of %s/%d" % (v, len(args)))
+            if v == "M_PI":
+                return "M_PI_F"
+            if v == "FOUR_PI_G_OVER_C_SQUARED":
+                return "FOUR_PI_G_OVER_C_SQUARED_F"
+            if v in self.params or v in self.locals:
+                return v
+            self.fail("identifier %s" % v)
+        self.fail("expression")
+
+    def cond(self):
+        """( cond )"""
+        self.eat("op", "(")
+        if self.peek() == ("op", "!"):
+            self.eat()
+            self.eat("id", "c"); self.eat("op", "->"); self.eat("id", "flat")
+            self.flat_used = True
+            g = "(negb flat)"
+        elif self.peek() == ("id", "c") and self.peek(2) == ("id", "flat"):
+            self.eat(); self.eat("op", "->"); self.eat()
+            self.flat_used = True
+            g = "flat"
+            if self.peek() == ("op", "!="):
+                self.eat()
+                if self.eat("num")[1] != "1":
+                    self.fail("c->flat != <not 1>")
+                g = "(negb flat)"
+        else:
+            a = self.expr()
+            op = self.eat("op")[1]
+            b = self.expr()
+            if op == ">":
+                g = "(%s <? %s)" % (b, a)
+            elif op == "<":
+                g = "(%s <? %s)" % (a, b)
+            elif op == "<=":
+                g = "(%s <=? %s)" % (a, b)
+            elif op == ">=":
+                g = "(%s <=? %s)" % (b, a)
+            else:
+                self.fail("comparison %s" % op)
+        self.eat("op", ")")
+        return g
+
+    # ---- statements: returns (list of (kind, ...)) as an AST first, emission afterwards
+    def lvalue(self):
+        v = self.eat("id")[1]
+        if v == "c" and self.peek() == ("op", "->"):
+            self.eat()
+            f = self.eat("id")[1]
+            if f != "tcfac":
+                self.fail("assignment to c->%s" % f)
+            v = "tcfac"
+        elif v not in self.locals:
+            self.fail("assignment to undeclared %s" % v)
+        return v
+
+    def block(self):
+        self.eat("op", "{")
+        out = []
+        while self.peek() != ("op", "}"):
+            out += self.stmt()
+        self.eat("op", "}")
+        return out
+
+    def stmt(self):
+        k, v = self.peek()
+        if (k, v) in (("id", "double"), ("id", "int")):
+            self.eat()
+            out = []
+            while True:
+                name = self.eat("id")[1]
+                if v == "double":
+                    self.locals.add(name)
+                if self.peek() == ("op", "="):
+                    self.eat()
+                    e = self.expr()
+                    if v == "double":
+                        out.append(("set", name, e))
+                if self.peek() == ("op", ","):
+                    self.eat()
+                    continue
+                self.eat("op", ";")
+                return out
+        if (k, v) == ("id", "return"):
+            self.eat()
+            e = self.expr()
+            self.eat("op", ";")
+            return [("ret", e)]
+        if (k, v) == ("id", "if"):
+            self.eat()
+            g = self.cond()
+            a = self.block()
+            b = []
+            if self.peek() == ("id", "else"):
+                self.eat()
+                b = self.block()
+            return [("if", g, a, b)]
+        if (k, v) == ("id", "for"):
+            self.eat()
+            self.eat("op", "(")
+            hdr = []
+            while self.peek() != ("op", ")"):
+                hdr.append(self.eat()[1])
+            self.eat("op", ")")
+            if len(hdr) != 10 or hdr[:4] != ["i", "=", "0", ";"] or hdr[4:6] != ["i", "<"] or hdr[7:] != [";", "i", "++"]:
+                self.fail("loop header %r" % "".join(hdr))
+            body = self.block()
+            return [("for", hdr[6], body)]
+        if k == "id":
+            x = self.lvalue()
+            op = self.eat("op")[1]
+            e = self.expr()
+            self.eat("op", ";")
+            if op == "=":
+                return [("set", x, e)]
+            if op in ("+=", "-=", "*=", "/="):
+                return [("set", x, "(%s %s %s)" % (x, op[0], e))]
+            self.fail("assignment operator %s" % op)
+        self.fail("statement")
+
+
+def _assigned(stmts):
+    out = []
+    for st in stmts:
+        if st[0] == "set" and st[1] not in out:
+            out.append(st[1])
+        elif st[0] == "if":
+            for v in _assigned(st[2]) + _assigned(st[3]):
+                if v not in out:
+                    out.append(v)
+        elif st[0] == "for":
+            for v in _assigned(st[2]):
+                if v not in out:
+                    out.append(v)
+    return out
+
+
+def _emit(stmts, what, tail=None, scope=()):
+    """statement list -> Gallina expression; `tail` is the expression of the enclosing tuple when the list does not return"""
+    if not stmts:
+        if tail is None:
+            raise TranslateError("cosmolib.c %s: control reaches the end without return" % what)
+        return tail
+    st, rest = stmts[0], stmts[1:]
+    if st[0] == "ret":
+        if rest:
+            raise TranslateError("cosmolib.c %s: statements after return" % what)
+        return st[1]
+    if st[0] == "set":
+        return "let %s := %s in %s" % (st[1], st[2], _emit(rest, what, tail, tuple(scope) + (st[1],)))
+    if st[0] == "if":
+        _g, a, b = st[1], st[2], st[3]
+        if len(a) == 1 and a[0][0] == "ret" and not b:          # early exit
+            return "if %s then %s else (%s)" % (st[1], a[0][1], _emit(rest, what, tail, scope))
+        vs = _assigned(a) + [v for v in _assigned(b) if v not in _assigned(a)]
+        # a variable assigned in one branch only and not defined before the `if` is dead afterwards (or the build fails)
+        vs = [v for v in vs if v in scope or (v in _assigned(a) and v in _assigned(b))]
+        if not vs or any(s[0] == "ret" for s in a + b):
+            raise TranslateError("cosmolib.c %s: if-statement outside the subset" % what)
+        tup = vs[0] if len(vs) == 1 else "(%s)" % ", ".join(vs)
+        pat = vs[0] if len(vs) == 1 else "'(%s)" % ", ".join(vs)
+        return "let %s := (if %s then (%s) else (%s)) in %s" % (pat, st[1], _emit(a, what, tup, scope), _emit(b, what, tup, scope),
+                                                            _emit(rest, what, tail, tuple(scope) + tuple(vs)))
+    if st[0] == "for":
+        vs = _assigned(st[2])
+        carried = [v for v in vs if any(s[0] == "set" and s[1] == v and ("(%s " % v) in s[2] for s in st[2])]
+        if len(carried) != 1 or any(s[0] != "set" for s in st[2]):
+            raise TranslateError("cosmolib.c %s: loop body outside the subset" % what)
+        acc = carried[0]
+        body = _emit(st[2], what, acc, scope)
+        return ("let %s := fold_left (fun %s xw => let xi := fst xw in let wi := snd xw in %s) (combine xs ws) %s in %s"
+                % (acc, acc, body, acc, _emit(rest, what, tail, scope)))
+    raise TranslateError("cosmolib.c %s: statement kind %r" % (what, st[0]))
+
+
+def _c_function_body(c, name, sig):
+    m = re.findall(r"^double\s+%s\s*\(\s*struct\s+cosmo\s*\*\s*c\s*%s\)\s*\{" % (name, sig), c, re.M)
+    if len(m) != 1:
+        raise TranslateError("cosmolib.c: definition of %s not found exactly once" % name)
+    k = re.search(r"^double\s+%s\s*\(\s*struct\s+cosmo\s*\*\s*c\s*%s\)\s*\{" % (name, sig), c, re.M)
+    depth, i = 1, k.end()
+    while depth and i < len(c):
+        depth += {"{": 1, "}": -1}.get(c[i], 0)
+        i += 1
+    return c[k.end() - 1:i]
+
+
+def _c_scalar_functions(c, h):
+    c = _strip_c_comments(c)
+    lines = ["(* cosmolib.c, translated statement by statement (binary64; callees and libm functions are parameters) *)",
+             "Section GenCosmolib.", "  Local Open Scope float_scope."]
+    spec = [("ez_inverse", ["z"]), ("ez_inverse_integral", ["zmin", "zmax"]), ("Dc", ["zmin", "zmax"]), ("Dm", ["zmin", "zmax"]),
+            ("Da", ["zmin", "zmax"]), ("Dl", ["zmin", "zmax"]), ("dV", ["z"]), ("V", ["zmin", "zmax"]), ("scinv", ["zl", "zs"])]
+    for name, params in spec:
+        sig = "".join(r",\s*double\s+%s\s*" % p for p in params)
+        body = _c_function_body(c, name, sig)
+        P = _CP(_ctokens(body), name, params)
+        stmts = P.block()
+        if P.peek()[0] != "eof":
+            P.fail("trailing text")
+        gal = _emit(stmts, name)
+        args = []
+        if P.flat_used:
+            args.append("(flat : bool)")
+        if P.used_fields:
+            args.append("(%s : float)" % " ".join(f for f in ("DH", "om", "ol", "ok", "tcfac") if f in P.used_fields))
+        if P.tables:
+            bounds = {_TABLES[t][0] for t in P.tables}
+            loops = [s for s in stmts if s[0] == "for"]
+            if len(bounds) != 1 or len(loops) != 1 or loops[0][1] not in bounds or \
+                    {_TABLES[t][1] for t in P.tables} != {"xi", "wi"}:
+                raise TranslateError("cosmolib.c %s: loop bound / tables %r" % (name, sorted(P.tables)))
+            for t in P.tables:     # the struct declares the table with the loop's bound
+                if len(re.findall(r"double\s+%s\s*\[\s*%s\s*\]\s*;" % (t, _TABLES[t][0]), h)) != 1:
+                    raise TranslateError("cosmolib.h: table %s is not declared with %s entries" % (t, _TABLES[t][0]))
+            args.append("(xs ws : list float)")
+        for f in P.used_funs:
+            ar = 1 if f in ("fsinh", "fsin", "fez", "fdV") else 2
+            args.append("(%s : %sfloat)" % (f, "float -> " * ar))
+        args.append("(%s : float)" % " ".join(params))
+        lines.append("  Definition %s_src %s : float :=\n    %s." % (name, " ".join(args), gal))
+    # cosmo_new: the curvature factor
+    m = re.findall(r"(c->tcfac\s*=\s*0\s*;.*?)\n\s*gauleg\(", c, re.S)
+    if len(m) != 1:
+        raise TranslateError("cosmolib.c: tcfac block of cosmo_new not found exactly once")
+    for f in ("DH", "flat", "omega_m", "omega_l", "omega_k"):
+        if len(re.findall(r"c->%s\s*=\s*%s\s*;" % (f, f), c)) != 1:
+            raise TranslateError("cosmolib.c cosmo_new: c->%s = %s; not found exactly once" % (f, f))
+    P = _CP(_ctokens("{" + m[0] + "}"), "cosmo_new", [])
+    P.locals.add("tcfac")
+    stmts = P.block()
+    gal = _emit(stmts, "cosmo_new", "tcfac")
+    lines.append("  Definition tcfac_src (flat : bool) (%s : float) : float :=\n    %s." % (" ".join(f for f in ("DH", "om", "ol", "ok") if f in P.used_fields), gal))
+    lines.append("End GenCosmolib.")
     return "\n".join(lines)
 
 
